@@ -163,3 +163,31 @@ def first_statement(rel, qual, regex):
     if re.search(regex, first):
         return {'status': 'ok', 'fails': [], 'src': '%s:%d' % (rel, line)}
     return {'status': 'fail', 'fails': ['the first statement of %s is `%s`' % (qual, first[:80])], 'src': '%s:%d' % (rel, line)}
+
+
+def error_text_coupling(user_rel, user_fn, err_rel, variant):
+    """The receiver loop decides which errors it survives by looking for a literal in the error's Display text
+    (`e.to_string().contains("..")`), while the text is declared in another crate (`#[error("..")]` on the variant).
+    Obligation: every literal the loop keys on occurs in the declared text of `variant`.  If the loop matches the variant
+    itself instead of its text, the coupling is gone and the obligation holds trivially."""
+    try:
+        sf = extract.SourceFile(user_rel)
+        it = sf.find_fn(user_fn)
+        err_src = open(os.path.join(os.environ.get('VERIF_REPO', '/repo'), err_rel)).read()
+    except (extract.LostAnchor, OSError) as e:
+        return {'status': 'undecided', 'reason': str(e)}
+    body = sf.src[it.body_open + 1:it.end - 1]
+    body_nc = re.sub(r'//[^\n]*', '', body)
+    line = sf.src.count('\n', 0, it.sig_start) + 1
+    lits = re.findall(r'to_string\s*\(\s*\)\s*\.\s*contains\s*\(\s*"((?:[^"\\]|\\.)*)"\s*\)', body_nc)
+    if not lits:
+        if re.search(r'Error\s*::\s*%s\b' % re.escape(variant), mask(body)):
+            return {'status': 'ok', 'fails': [], 'src': '%s:%d' % (user_rel, line)}
+        return {'status': 'undecided', 'reason': '%s neither looks for a text in the error nor matches Error::%s: cannot judge which errors it survives' % (user_fn, variant)}
+    m = re.search(r'#\[error\("((?:[^"\\]|\\.)*)"[^\]]*\)\]\s*(?:#\[[^\]]*\]\s*)*%s\s*[\({]' % re.escape(variant), err_src)
+    if not m:
+        return {'status': 'undecided', 'reason': 'no #[error("..")] text found for variant %s in %s' % (variant, err_rel)}
+    text = m.group(1)
+    fails = ['%s survives errors whose text contains "%s", but Error::%s is displayed as "%s" (%s): an undecodable frame ends the receiver'
+             % (user_fn, l, variant, text, err_rel) for l in lits if l not in text]
+    return {'status': 'fail' if fails else 'ok', 'fails': fails, 'src': '%s:%d' % (user_rel, line)}
